@@ -12,7 +12,7 @@ CLAIMED = {
    note="Trusted: the normaliser that removes the ?BREAK report, the line break it forces and the prompts (terminal model + probe hook H4 to tell forced from printed line breaks). TRON, interrupts landing in the direct RUN line, and column-sensitive items after a mid-line break are not judged.",
    tech="deterministic simulation: exhaustive interrupt-point / STOP-END-placement enumeration per seeded program, self-differential against the uninterrupted run, seeded quantum schedules"),
  "C04": dict(cat="exploration", ref="DESIGN.md section 5 C04",
-   text="Seeded search over edit histories (insert/replace/delete/absent-delete, DELETE ranges, RENUM, NEW, SimDisk load, a host-initiated load arriving k instructions into a run, program lines that DELETE / NEW / LOAD / RUN "file" when executed, harmless direct statements) around runs stopped by an injected interrupt, STOP, END or an error inside loops and subroutines, ending in RUN / RUN n / CONT / RETURN / NEXT / a direct call of a user function; the oracle is a fresh twin Runtime fed get_listing() text with entropy aligned. Needs no semantic model, so it cannot raise model-induced alarms; a clean batch is evidence over the sampled histories.",
+   text="Seeded search over edit histories (insert/replace/delete/absent-delete, DELETE ranges, RENUM, NEW, SimDisk load, a host-initiated load arriving k instructions into a run, program lines that DELETE / NEW / LOAD / RUN \"file\" when executed, harmless direct statements) around runs stopped by an injected interrupt, STOP, END or an error inside loops and subroutines, ending in RUN / RUN n / CONT / RETURN / NEXT / a direct call of a user function; the oracle is a fresh twin Runtime fed get_listing() text with entropy aligned. Needs no semantic model, so it cannot raise model-induced alarms; a clean batch is evidence over the sampled histories.",
    note="Trusted: token-stream normaliser (prompt and forced line breaks removed). CONT/RETURN/NEXT without an edit since the last stop are legitimate and not judged; cases whose listing is not a fixed point (C05) are discarded.",
    tech="deterministic simulation: seeded edit histories with interrupt-stopped runs, fresh-twin differential oracle"),
  "C12": dict(cat="exploration", ref="DESIGN.md section 5 C12",
@@ -40,7 +40,7 @@ CLAIMED = {
    note="Trusted: RefBASIC (parameters in a local frame). Line attribution of errors raised inside function bodies, calls after edits and calls under TRON are grey zones.",
    tech="deterministic simulation: seeded programs and sessions against RefBASIC, pool-exhaustion fault (runaway recursion) with canary"),
  "C11": dict(cat="exploration", ref="DESIGN.md section 5 C11, section 4.3",
-   text="Seeded programs and direct lines over-sampling PRINT lists (strings incl. multi-byte and embedded line feeds, numbers of each type, TAB around column/zone boundaries and +-255, SPC, POS, separators, trailing separators) interleaved with TRON, INPUT, planted errors and STOP with the cursor mid-line, LIST between prints, keyboard polls between items, CONT; members: a program chaining with RUN "file" while the cursor is mid-line (twin), C13's interrupt + CONT enumeration over PRINT-heavy programs with the world invariant that a ?BREAK report arrives at column 0. RefBASIC lays out from the simulated terminal's true cursor column; transcripts must be identical. The column clause is decided by simulation (two parties: terminal cursor vs the VM's belief); number formatting only for the generated values.",
+   text="Seeded programs and direct lines over-sampling PRINT lists (strings incl. multi-byte and embedded line feeds, numbers of each type, TAB around column/zone boundaries and +-255, SPC, POS, separators, trailing separators) interleaved with TRON, INPUT, planted errors and STOP with the cursor mid-line, LIST between prints, keyboard polls between items, CONT; members: a program chaining with RUN \"file\" while the cursor is mid-line (twin), C13's interrupt + CONT enumeration over PRINT-heavy programs with the world invariant that a ?BREAK report arrives at column 0. RefBASIC lays out from the simulated terminal's true cursor column; transcripts must be identical. The column clause is decided by simulation (two parties: terminal cursor vs the VM's belief); number formatting only for the generated values.",
    note="Trusted: the terminal model's cursor rule and RefBASIC's PRINT rules. The for-all-floats formatting clause is a pure function and is not claimed.",
    tech="deterministic simulation: terminal-cursor model vs VM column bookkeeping across Print/Input/Errors/List/trace/BREAK events, RefBASIC layout oracle"),
  "C17": dict(cat="exploration", ref="DESIGN.md section 5 C17",
@@ -56,7 +56,7 @@ CLAIMED = {
    note="Trusted: the AST renderer and the 25-line model renumbering. A refused triple that the manual makes valid is counted, not reported (the property allows failing).",
    tech="deterministic simulation: seeded RENUM transactions with failing argument triples and live-snapshot fault, model renumbering + twin-runtime behavioural equivalence"),
  "C19": dict(cat="exploration", ref="DESIGN.md section 5 C19",
-   text="Seeded sessions: a clean generated program is typed, optionally run to its end or to an injected Ctrl-C (leaving FOR/GOSUB frames, a CONT point and defined user functions), then damaged by typed edits (dangling reference in each of nine referencing forms, stray WHILE / WEND, token-level syntax damage, on new lines or in front of existing lines, with ASCII and multi-byte statements before the fault), then with tracing on one of 13 doors into the program is tried (RUN, RUN n, GOTO n, GOSUB n, ON..GOTO, ON..GOSUB, IF..THEN n, FOR..GOSUB..NEXT, CONT, RETURN, NEXT, a direct call of a user function, load-and-run from the SimDisk), optionally typed behind `PRINT "X";:` and optionally followed by CONT; 6% of the programs damage themselves (their first line DELETEs the target of a later GOTO). Invariants: every diagnostic names a listed line and a character range inside its listed text, UNDEFINED LINE ranges spell exactly a missing number, WHILE/WEND ranges the keyword, LIST underlines exactly the reported ranges, every planted fault is reported; through the door no trace token, output, prompt or variable change; harmless direct statements still work.",
+   text="Seeded sessions: a clean generated program is typed, optionally run to its end or to an injected Ctrl-C (leaving FOR/GOSUB frames, a CONT point and defined user functions), then damaged by typed edits (dangling reference in each of nine referencing forms, stray WHILE / WEND, token-level syntax damage, on new lines or in front of existing lines, with ASCII and multi-byte statements before the fault), then with tracing on one of 13 doors into the program is tried (RUN, RUN n, GOTO n, GOSUB n, ON..GOTO, ON..GOSUB, IF..THEN n, FOR..GOSUB..NEXT, CONT, RETURN, NEXT, a direct call of a user function, load-and-run from the SimDisk), optionally typed behind `PRINT \"X\";:` and optionally followed by CONT; 6% of the programs damage themselves (their first line DELETEs the target of a later GOTO). Invariants: every diagnostic names a listed line and a character range inside its listed text, UNDEFINED LINE ranges spell exactly a missing number, WHILE/WEND ranges the keyword, LIST underlines exactly the reported ranges, every planted fault is reported; through the door no trace token, output, prompt or variable change; harmless direct statements still work.",
    note="Trusted: the damage placement (faults only added, never by modifying existing statements, so the planted set is the expected set). An empty range at the end of a line counts as inside it. The value of a direct FN call is not judged here.",
    tech="deterministic simulation: seeded edit/run/stop histories with injected interrupts, every door into a damaged program under seeded slice schedules, diagnostic-range invariants against the listing snapshot"),
  "C18": dict(cat="exploration", ref="DESIGN.md section 5 C18",
